@@ -41,6 +41,8 @@ inductive SOp where
   | ePush (code : Int) (info : Option Bytes)
   | iTag
   | iNums (n : Nat) (dflt : Int)
+  | iIsCmd (s : Bytes)                                        -- SCPI_IsCmd(context, s): does the header text `s` belong to the matched entry's pattern?
+  | iMatch (pat s : Bytes)                                    -- SCPI_Match(pat, s, len)
   | onFail (stop : Bool)                                      -- a failed reader makes the handler return ERR at once
   | ret (ok : Bool)
   | builtin (b : Builtin)                                     -- one of the library's own handlers (SCPI_Core*, SCPI_System*, SCPI_Status*)
@@ -65,6 +67,7 @@ inductive Ev where
   | pArr (ok : Bool) (vals : List Int)
   | tag (t : Int)
   | nums (ok : Bool) (l : List Int)
+  | test (ok : Bool)                                           -- result of SCPI_IsCmd / SCPI_Match
   | error (code : Int) (info : Option Bytes)                   -- error pushed (code, device-dependent text handed in)
   | input (result : Bool)                                      -- return value of one SCPI_Input call
   | parseMsg (msg : Bytes)                                     -- SCPI_Parse entered with this message (verification hook)
@@ -423,6 +426,11 @@ def runOp (h : HState) (op : SOp) : HState :=
       let (r, l, _) := Match.matchCommand cmd.pattern (c.buf.drop c.rawOff) c.rawLen (some (List.replicate n (-777))) d
       { h with c := emit c (.nums r l) }
     | none => h
+  | .iIsCmd s =>
+    -- SCPI_IsCmd: FALSE without a matched entry, else matchCommand(pattern, s, strlen(s), NULL, 0, 0)
+    let s := s.takeWhile (· ≠ 0)
+    { h with c := emit c (.test (match c.cur with | some cmd => (Match.matchCommand cmd.pattern s s.length none 0).1 | none => false)) }
+  | .iMatch pat s => { h with c := emit c (.test (Match.matchCommand pat s s.length none 0).1) }
   | .onFail s => { h with stopOnFail := s }
   | .ret ok => { h with result := ok, done := true }
   | .builtin b =>
